@@ -442,6 +442,44 @@ func c05Extras(c *Check) {
 	}
 	gGlobals(c, "C05.R")
 	c05Restart(c)
+	// C05.E: what the application is asked to persist is exactly the unstable state
+	rdEntries := p.Field("raft", "Ready", "Entries")
+	rdSnap := p.Field("raft", "Ready", "Snapshot")
+	nextEnts := p.Method("raft", "raftLog", "nextUnstableEnts")
+	nextSnap := p.Method("raft", "raftLog", "nextUnstableSnapshot")
+	for _, st := range p.StoresTo(rdEntries) {
+		if st.Whole {
+			continue
+		}
+		fi := p.Info(st.Fn)
+		v := fi.Sym(st.Val)
+		if v.K == KNil {
+			continue
+		}
+		c.Result(v.K == KCall && v.Fn == nextEnts, "C05.E", "store Ready.Entries", fnName(st.Fn), p.site(st.Instr), "Entries <- r.raftLog.nextUnstableEnts() (everything not yet handed to storage)", sanitizeKey(v.Key()))
+	}
+	for _, st := range p.StoresTo(rdSnap) {
+		if st.Whole {
+			continue
+		}
+		fi := p.Info(st.Fn)
+		v := fi.Sym(st.Val)
+		if v.K == KNil {
+			continue
+		}
+		c.Result(v.K == KCall && v.Fn == nextSnap, "C05.E", "store Ready.Snapshot", fnName(st.Fn), p.site(st.Instr), "Snapshot <- r.raftLog.nextUnstableSnapshot()", sanitizeKey(v.Key()))
+	}
+	if acceptReady := p.Method("raft", "RawNode", "acceptReady"); acceptReady != nil {
+		afi := p.Info(acceptReady)
+		acceptUnstable := p.Method("raft", "raftLog", "acceptUnstable")
+		ok := false
+		for _, ci := range p.CallsIn(acceptReady, acceptUnstable) {
+			if mustPass(afi, ci) {
+				ok = true
+			}
+		}
+		c.Result(ok, "C05.E", "acceptReady marks the handed-out state as in progress", fnName(acceptReady), p.Pos(acceptReady.Pos()), "raftLog.acceptUnstable() on every path", "")
+	}
 }
 
 // c05Restart: newRaft takes term/vote/commit only from Storage.InitialState via loadState.
@@ -519,4 +557,102 @@ func gGlobals(c *Check, rule string) {
 		c.Result(allowed, rule, "write to package variable "+w.g.Name(), fnName(w.fn), p.site(w.in), "no mutable package-level state besides the logger", "")
 	}
 	c.Ok(rule, "package-level variables scanned", "-", "-", "no mutable package-level state besides the logger", fmt.Sprintf("%d globals, %d post-init writes", nGlob, len(ws)))
+}
+
+// nodeLoop — the channel-based Node wrapper hands out one Ready at a time and
+// advances only on the application's acknowledgement (sync mode of C05/C08 for
+// users of Node rather than RawNode).
+func nodeLoop(c *Check) {
+	p := c.P
+	run := p.Method("raft", "node", "run")
+	ready := p.Method("raft", "RawNode", "readyWithoutAccept")
+	accept := p.Method("raft", "RawNode", "acceptReady")
+	advance := p.Method("raft", "RawNode", "Advance")
+	asyncF := p.Field("raft", "RawNode", "asyncStorageWrites")
+	if run == nil || ready == nil || accept == nil || advance == nil {
+		return
+	}
+	fi := p.Info(run)
+	// the select and its states
+	var sel *ssa.Select
+	for _, in := range p.liveInstrsOf(run) {
+		if s, ok := in.(*ssa.Select); ok && len(s.States) > 4 {
+			sel = s
+		}
+	}
+	if sel == nil {
+		c.Bad("C05.N", "node.run select loop", fnName(run), p.Pos(run.Pos()), "the Node loop multiplexes its channels in one select", "not found")
+		return
+	}
+	armOf := func(in ssa.Instruction) int {
+		f := fi.FactsAt(in)
+		for _, a := range f.Atoms {
+			if a.K == AEq && len(a.L.T) == 1 {
+				for k, s := range a.L.S {
+					if s.K == KExtract && s.Idx == 0 && s.Args[0].V == ssa.Value(sel) && a.L.T[k] == 1 {
+						return int(-a.L.K)
+					}
+				}
+			}
+		}
+		return -1
+	}
+	// which local channel variables gate the Ready and Advance arms
+	var advPhi ssa.Value
+	for _, ci := range p.CallsIn(run, advance) {
+		k := armOf(ci)
+		ok := k >= 0 && k < len(sel.States) && sel.States[k].Dir == types.RecvOnly
+		if ok {
+			advPhi = sel.States[k].Chan
+		}
+		c.Result(ok, "C05.N", "Node advances only on the application's acknowledgement", fnName(run), p.site(ci), "rn.Advance is called only in the select arm that received from the advance channel", fmt.Sprintf("arm %d", k))
+	}
+	for _, ci := range p.CallsIn(run, accept) {
+		k := armOf(ci)
+		ok := k >= 0 && k < len(sel.States) && sel.States[k].Dir == types.SendOnly
+		okSame := ok && sel.States[k].Send == callArgs(ci)[1]
+		c.Result(ok && okSame, "C05.N", "Node accepts a Ready only once it was delivered", fnName(run), p.site(ci), "rn.acceptReady(rd) only in the arm that sent that same rd to the application", fmt.Sprintf("arm %d", k))
+		// in sync mode the advance channel is armed right after
+		armed := false
+		seenPhi := map[ssa.Value]bool{}
+		var look func(v ssa.Value, d int)
+		look = func(v ssa.Value, d int) {
+			if v == nil || d > 4 || seenPhi[v] {
+				return
+			}
+			seenPhi[v] = true
+			if ph, ok := v.(*ssa.Phi); ok {
+				for _, e := range ph.Edges {
+					look(e, d+1)
+				}
+				return
+			}
+			s := fi.Sym(v)
+			if s.K == KField && s.Fld.Name() == "advancec" {
+				armed = true
+			}
+		}
+		look(advPhi, 0)
+		_ = asyncF
+		c.Result(armed, "C05.N", "Node waits for Advance after handing out a Ready", fnName(run), p.site(ci), "the advance channel is enabled after acceptReady (sync mode)", "")
+	}
+	// a new Ready is computed only when no Advance is outstanding
+	for _, ci := range p.CallsIn(run, ready) {
+		f := fi.FactsAt(ci)
+		ok := false
+		for _, a := range f.Atoms {
+			if a.K == ASame && !a.Neg {
+				var other *Sym
+				if a.S.K == KNil {
+					other = a.S2
+				} else if a.S2.K == KNil {
+					other = a.S
+				}
+				if other != nil && advPhi != nil && other.V == advPhi {
+					ok = true
+				}
+			}
+		}
+		c.Result(ok, "C05.N", "Node computes a new Ready only when none is outstanding", fnName(run), p.site(ci), "advancec == nil (the previous Ready was advanced) before readyWithoutAccept()", strings.Join(f.Describe(), "; "))
+	}
 }
